@@ -20,6 +20,7 @@ RULE = ("the interleaved event log (consumer step, pull(src,pos), end(src), call
         "flavours sync_iter/sync_gen/getitem_seq/async_gen/async_class, callables def/async def; non-trivial = at "
         "least one pull and (a source ended, or an early exit, or a callable was invoked); distinct = spec+flavours")
 RULE += (' Also: ONE iterator passed as several arguments; sized containers (list, tuple) among one-shot iterators; groupby with a key that fails once while the consumer carries on; a plain list changed (append/pop/replace/insert/clear) while the tool is part-way through it; group handles closed.')
+RULE += (' Also: key / reduction calls of min, max, reduce (full interleaving with pulls) and sorted, nlargest, nsmallest (call sequence).')
 ASSUMPTIONS = ["stdlib 3.12 is the reference; events compared are exactly pulls, end checks, calls, yields",
                "generator-flavoured sources are compared with generator twins (a pull after exhaustion is invisible there)",
                "accumulate([]) without initial: only the pull/end events before the documented TypeError are compared"]
@@ -58,7 +59,7 @@ def cases(tier, seed, shard, nshards):
             yield {"spec": spec, "flav": ["async_class"] * max(1, len(spec["srcs"])), "fnfl": "def"}
     rng = random.Random(f"C05-{seed}-{shard}")
     n = N_RANDOM[tier] // nshards
-    names = gen.ITER_TOOL_NAMES + ["tee", "all", "any"]
+    names = gen.ITER_TOOL_NAMES + ["tee", "all", "any"] + AGG_WITH_CALLABLE
     for i in range(n):
         name = names[i % len(names)]
         if name == "tee":
@@ -77,9 +78,15 @@ def cases(tier, seed, shard, nshards):
             spec = {"tool": "tee", "srcs": [ks], "fns": [], "params": {"n": nchild}, "ops": ops}
         elif name in ("all", "any"):
             spec = {"tool": name, "srcs": [gen.keys_seq(rng, 8, 2)], "fns": [], "params": {}}
+        elif name in AGG_WITH_CALLABLE:
+            # aggregations that take a callable: the key / the reduction is invoked once per item, in item order,
+            # also for the only item of a one-item input
+            spec = gen.agg_spec(rng, name, rng.choice([1, 2, 4, 6]))
+            while spec.get("raw"):
+                spec = gen.agg_spec(rng, name, rng.choice([1, 2, 4, 6]))
         else:
             spec = gen.iter_spec(rng, name)
-        if rng.random() < 0.2 and "steps" not in spec and name not in ("tee", "all", "any"):
+        if rng.random() < 0.2 and "steps" not in spec and name not in ("tee", "all", "any") + tuple(AGG_WITH_CALLABLE):
             spec["steps"] = rng.randint(0, 4)  # consumer stops early
         gen_kind = rng.random() < 0.25
         pool = ["async_gen", "sync_gen"] if gen_kind else [f for f in FLAVS if not f.endswith("gen")]
@@ -90,6 +97,12 @@ def cases(tier, seed, shard, nshards):
             for i in rng.sample(range(1, len(flav)), rng.randint(1, len(flav) - 1)):
                 flav[i] = rng.choice(["list", "tuple"])
         yield {"spec": spec, "flav": flav, "fnfl": rng.choice(FNFL)}
+
+
+AGG_WITH_CALLABLE = ["min", "max", "reduce", "sorted", "nlargest", "nsmallest"]
+# these materialise their input before (sorted) or while (heapq) computing keys, an implementation detail of the
+# counterpart: for them the sequence of calls is compared, not its interleaving with the pulls
+CALLS_ONLY = ("sorted", "nlargest", "nsmallest")
 
 
 MUT_TOOLS = {
@@ -251,6 +264,10 @@ def run_case(case, stats: Counter):
         # documented deviation: TypeError instead of an empty iterator; events up to it must agree
         exp = [e for e in exp if e[0] in ("step", "pull", "end")]
         got = [e for e in got if e[0] in ("step", "pull", "end")]
+    if tool in CALLS_ONLY:
+        exp = [e for e in exp if e[0] == "call"]
+        got = [e for e in got if e[0] == "call"]
+        stats["call_sequences_of_sorting_aggregations_compared"] += 1
     stats[f"runs_{tool}"] += 1
     pulls = sum(1 for e in exp if e[0] == "pull")
     ends = sum(1 for e in exp if e[0] == "end")
